@@ -72,15 +72,17 @@ pub fn plan(tier: &str, seed: u64) -> Vec<Batch> {
     // history: a transient fault at any system call of the *first* lookup of a
     // process (where the library reads and caches the sysctl) must not change
     // what later lookups are allowed to follow
-    let mut u1 = UniCfg::e();
-    u1.psym = Some(1);
-    let total = 2 * FU_MAX_STEP * FU_ERRNOS.len() as u64;
-    let stride = if tier == "thorough" { 1 } else { 2 };
-    let chunk = 64 * stride;
-    let mut lo = 0;
-    while lo < total {
-        v.push(Batch { check: "C15".into(), phase: "first-use-fault".into(), uni: u1.clone(), seed, lo, hi: (lo + chunk).min(total), fresh: true, tier: tier.into(), extra: json!({"stride": stride}) });
-        lo += chunk;
+    for sysctl in [1u32, 0] {
+        let mut u1 = UniCfg::e();
+        u1.psym = Some(sysctl);
+        let total = 2 * FU_MAX_STEP * FU_ERRNOS.len() as u64;
+        let stride = if tier == "thorough" { 1 } else if sysctl == 1 { 2 } else { 4 };
+        let chunk = 64 * stride;
+        let mut lo = 0;
+        while lo < total {
+            v.push(Batch { check: "C15".into(), phase: "first-use-fault".into(), uni: u1.clone(), seed, lo, hi: (lo + chunk).min(total), fresh: true, tier: tier.into(), extra: json!({"stride": stride}) });
+            lo += chunk;
+        }
     }
     // the kernel backend never consults the emulation: its cells must all be allowed
     // when the machine's own sysctl is 0 and must follow the rule when it is 1
@@ -139,7 +141,7 @@ fn run_first_use(u: &mut Universe, b: &Batch, idx: u64, st: &mut Stats) {
         fu_case(&b.uni, idx)
     };
     let variant = case.extra["variant"].as_u64().unwrap_or(0) as usize;
-    let allowed = kernel_rule(1, &fu_cell(variant));
+    let allowed = kernel_rule(case.uni.psym.unwrap_or(1), &fu_cell(variant));
     let out = run_case(u, &case, &mut crate::sup::NoHooks, false);
     if let Some(e) = &out.harness_error {
         st.harness_errors.push(format!("first-use-fault {idx}: {e}"));
@@ -305,7 +307,7 @@ pub fn finalise(tier: &str, seed: u64, res: coord::CheckResult) -> i32 {
         tier,
         seed,
         "fault_enumeration",
-        "a finite matrix enumerated completely: directory mode {plain, sticky, world-writable, sticky+world-writable} x directory owner x link owner x caller uid (each from {0,1000,1001}; the caller thread switches its effective uid with a raw per-thread setresuid) x link position {trailing, intermediate} x facade x sysctl value {0,1} substituted at the seam in an E universe (one universe per value, since the library caches it per process); oracle: a transcription of may_follow_link() from fs/namei.c; the K universe runs the same cells against the machine's real sysctl; first-use-fault: in a fresh process (sysctl=1) one errno from {EMFILE, ENOMEM, EIO, EACCES} is injected at every system call of the *first* lookup - the one during which the library reads and caches the sysctl - for a refused and an allowed cell, and two fault-free lookups follow: a refused link is never followed and the fault-free lookups obey the rule exactly (quick: every second placement; thorough: all); distinct = every cell is a distinct configuration",
+        "a finite matrix enumerated completely: directory mode {plain, sticky, world-writable, sticky+world-writable} x directory owner x link owner x caller uid (each from {0,1000,1001}; the caller thread switches its effective uid with a raw per-thread setresuid) x link position {trailing, intermediate} x facade x sysctl value {0,1} substituted at the seam in an E universe (one universe per value, since the library caches it per process); oracle: a transcription of may_follow_link() from fs/namei.c; the K universe runs the same cells against the machine's real sysctl; first-use-fault: in a fresh process (sysctl=1) one errno from {EMFILE, ENOMEM, EIO, EACCES} is injected at every system call of the *first* lookup - the one during which the library reads and caches the sysctl - for a refused and an allowed cell, with the sysctl on and off, and two fault-free lookups follow: a refused link is never followed and the fault-free lookups obey the rule exactly (quick: every second placement; thorough: all); distinct = every cell is a distinct configuration",
         res,
         extra,
         vec!["the oracle is a five-line transcription of the kernel rule; the real kernel enforces it only when this machine's fs.protected_symlinks is 1 (recorded under machine_sysctl)".into()],
